@@ -39,6 +39,10 @@ type opIn struct {
 	// wirebad: bytes put on the connection instead of a well-formed message;
 	// Name/V/Host are what the failed decode leaves in the monitor's struct
 	Raw string `json:"raw,omitempty"`
+	// time: a TimeMeasure of the client API bound to Host (NewTimeMeasure when
+	// Host is -1), recorded Rec times on connection 0; every Record sends
+	// Name_wall, Name_system and Name_user with values the harness cannot know
+	Rec int `json:"rec,omitempty"`
 }
 
 type input struct {
@@ -47,6 +51,9 @@ type input struct {
 	Statics [][2]string `json:"statics"`
 	Conns   int         `json:"conns,omitempty"`
 	Ops     []opIn      `json:"ops"`
+	// CountOnly: recorded values are not known (time measures); compare counts,
+	// measure sets per result set and the CSV layout only (Coq: CaseN)
+	CountOnly bool `json:"count_only,omitempty"`
 }
 
 // ---------------------------------------------------------------- observations
@@ -132,6 +139,23 @@ func (o outObs) coq() string {
 		return "ObsDeadlock"
 	}
 	panic("bad out kind")
+}
+
+var timeSuffixes = []string{"_wall", "_system", "_user"}
+
+// coqOps: the model operations of one input operation (a recorded time
+// measure is three wire measures per Record, values unknown: 0)
+func (o opIn) coqOps() []string {
+	if o.Op != "time" {
+		return []string{o.coq()}
+	}
+	var l []string
+	for r := 0; r < o.Rec; r++ {
+		for _, sfx := range timeSuffixes {
+			l = append(l, opIn{Op: "wire", Name: o.Name + sfx, V: 0, Host: o.Host}.coq())
+		}
+	}
+	return l
 }
 
 func (o opIn) coq() string {
@@ -324,13 +348,22 @@ func runTCP(in input) (outs []outObs, discard bool) {
 	}
 	per := make([][]wireMeasure, nconn)
 	raw := make([][]string, nconn) // raw[c][k] != "" : send these bytes instead of per[c][k]
-	for ; i < len(in.Ops) && (in.Ops[i].Op == "wire" || in.Ops[i].Op == "wirebad"); i++ {
+	trec := make([][]int, nconn)   // trec[0][k] > 0 : a TimeMeasure recorded that many times
+	for ; i < len(in.Ops) && (in.Ops[i].Op == "wire" || in.Ops[i].Op == "wirebad" || in.Ops[i].Op == "time"); i++ {
 		o := in.Ops[i]
 		c := o.Conn % nconn
 		if o.Op == "wirebad" && c == 0 {
 			panic("harness: connection 0 uses the client API and cannot carry raw bytes")
 		}
+		if o.Op == "time" && c != 0 {
+			panic("harness: time measures use the client API, i.e. connection 0")
+		}
 		per[c] = append(per[c], wireMeasure{o.Name, o.V, o.Host})
+		if o.Op == "time" {
+			trec[c] = append(trec[c], o.Rec)
+		} else {
+			trec[c] = append(trec[c], 0)
+		}
 		r := ""
 		if o.Op == "wirebad" {
 			r = o.Raw
@@ -365,7 +398,19 @@ func runTCP(in input) (outs []outObs, discard bool) {
 	}
 	done := make(chan bool, nconn)
 	go func() {
-		for _, m := range per[0] {
+		for k, m := range per[0] {
+			if trec[0][k] > 0 {
+				var tm *monitor.TimeMeasure
+				if m.Host == monitor.InvalidHostIndex {
+					tm = monitor.NewTimeMeasure(m.Name)
+				} else {
+					tm = monitor.NewTimeMeasureWithHost(m.Name, m.Host)
+				}
+				for r := 0; r < trec[0][k]; r++ {
+					tm.Record()
+				}
+				continue
+			}
 			monitor.RecordSingleMeasureWithHost(m.Name, m.Value, m.Host)
 		}
 		monitor.EndAndCleanup()
@@ -492,6 +537,8 @@ func classify(in input) (reread, negmax bool) {
 				b.obj = old.obj
 			}
 			bks[o.Idx] = b
+		case "time":
+			continue // values unknown, count-only cases
 		case "wire", "measure":
 			if o.Op == "wire" && strings.ToLower(o.Name) == "end" {
 				continue
@@ -573,14 +620,17 @@ func run(raw json.RawMessage) lib.Case {
 	for i, kv := range in.Statics {
 		st[i] = lib.Pair(lib.Str(kv[0]), lib.Str(kv[1]))
 	}
-	ops := make([]string, len(in.Ops))
-	obs := make([]string, len(outs))
+	var ops, obs []string
 	human := []interface{}{}
 	nontrivial := false
 	failed := false
 	for i, o := range in.Ops {
-		ops[i] = o.coq()
-		obs[i] = outs[i].coq()
+		l := o.coqOps()
+		ops = append(ops, l...)
+		obs = append(obs, outs[i].coq())
+		for k := 1; k < len(l); k++ {
+			obs = append(obs, "ObsNone")
+		}
 		if outs[i].Kind != "none" && !failed {
 			human = append(human, map[string]interface{}{"op": i, "kind": o.Op, "out": outs[i].human()})
 			// the entries after a crash / a blocked operation only repeat it
@@ -590,8 +640,12 @@ func run(raw json.RawMessage) lib.Case {
 			nontrivial = true
 		}
 	}
+	ctor := "Case"
+	if in.CountOnly {
+		ctor = "CaseN"
+	}
 	return lib.Case{
-		Coq:        lib.App("Case", lib.List(st), lib.List(ops), lib.List(obs)),
+		Coq:        lib.App(ctor, lib.List(st), lib.List(ops), lib.List(obs)),
 		Class:      class,
 		Obs:        human,
 		Nontrivial: nontrivial,
@@ -919,6 +973,123 @@ func genTCPGarbage(rng *rand.Rand) input {
 	return in
 }
 
+// sources of an average that are used again afterwards -- averaged again
+// (first or later position), updated, read -- and the EARLIER average read
+// after that: the averaged set must keep the values it was built from.
+// Sizes are chosen so that Go slices have spare capacity (3, 5..7, 9..15).
+// Measures recorded into a source after averaging use names it already has.
+func genAvgReuse(rng *rand.Rand) input {
+	in := input{Kind: "avg-reuse", Mode: "api", Statics: statics(rng)}
+	nn := 1 + rng.Intn(2)
+	perm := rng.Perm(len(names))
+	big := []int{3, 5, 6, 7, 9, 10, 11, 12, 13}
+	nsrc := 3 + rng.Intn(2)
+	kinds := make([]int, nn)
+	for j := range kinds {
+		kinds[j] = rng.Intn(9)
+	}
+	for s := 0; s < nsrc; s++ {
+		in.Ops = append(in.Ops, opIn{Op: "new"})
+		for j := 0; j < nn; j++ {
+			n := 1 + rng.Intn(3)
+			if s == 0 || rng.Intn(4) == 0 {
+				n = big[rng.Intn(len(big))]
+			}
+			for k := 0; k < n; k++ {
+				in.Ops = append(in.Ops, opIn{Op: "direct", Obj: 1 + s, Name: names[perm[j]], V: genValue(rng, kinds[j])})
+			}
+		}
+	}
+	nobj := 1 + nsrc
+	var avgs []int
+	pick := func() int { return 1 + rng.Intn(nsrc) }
+	average := func(first int) {
+		srcs := []int{first}
+		for k := 1 + rng.Intn(2); k > 0; k-- {
+			srcs = append(srcs, pick())
+		}
+		in.Ops = append(in.Ops, opIn{Op: "average", Srcs: srcs})
+		avgs = append(avgs, nobj)
+		nobj++
+	}
+	average(1)
+	for step := 2 + rng.Intn(4); step > 0; step-- {
+		switch rng.Intn(5) {
+		case 0, 1: // another average, mostly starting with the same first set
+			if rng.Intn(3) > 0 {
+				average(1)
+			} else {
+				average(pick())
+			}
+		case 2, 3: // one more measure stored into a source
+			obj := 1
+			if rng.Intn(3) == 0 {
+				obj = pick()
+			}
+			j := rng.Intn(nn)
+			in.Ops = append(in.Ops, opIn{Op: "direct", Obj: obj, Name: names[perm[j]], V: genValue(rng, kinds[j])})
+		default: // a source or an average is read
+			if rng.Intn(2) == 0 {
+				in.Ops = append(in.Ops, opIn{Op: "values", Obj: pick()})
+			} else {
+				in.Ops = append(in.Ops, opIn{Op: "values", Obj: avgs[rng.Intn(len(avgs))]})
+			}
+		}
+	}
+	// every average, earliest first, then the sources
+	for _, a := range avgs {
+		in.Ops = append(in.Ops, opIn{Op: "header", Obj: a}, opIn{Op: "values", Obj: a})
+	}
+	in.Ops = append(in.Ops, opIn{Op: "values", Obj: 1})
+	return in
+}
+
+// host-bound time measures of the real client API (NewTimeMeasureWithHost /
+// NewTimeMeasure, Record) with buckets configured: every Record must put one
+// _wall, one _system and one _user value into the global set and into the
+// buckets of its host. Values are CPU / wall times: counts and membership only.
+func genTCPTime(rng *rand.Rand) input {
+	in := input{Kind: "tcp-time", Mode: "tcp", Statics: statics(rng), Conns: 1 + rng.Intn(3), CountOnly: true}
+	nb := 1 + rng.Intn(3)
+	var bidx []int
+	for b := 0; b < nb; b++ {
+		lo := rng.Intn(4)
+		rules := []string{fmt.Sprintf("%d:%d", lo, lo+1+rng.Intn(3))}
+		if rng.Intn(3) == 0 {
+			rules = append(rules, fmt.Sprintf("%d:%d", 5, 6))
+		}
+		in.Ops = append(in.Ops, opIn{Op: "bucket", Idx: b, Rules: rules})
+		bidx = append(bidx, b)
+	}
+	tnames := []string{"round", "setup"}
+	var c0 []opIn
+	for k := 2 + rng.Intn(4); k > 0; k-- {
+		c0 = append(c0, opIn{Op: "time", Name: tnames[rng.Intn(2)], Host: rng.Intn(7) - 1, Rec: 1 + rng.Intn(3), Conn: 0})
+		if rng.Intn(3) == 0 {
+			c0 = append(c0, opIn{Op: "wire", Name: "bandwidth_tx", V: genValue(rng, 8), Host: rng.Intn(7) - 1, Conn: 0})
+		}
+	}
+	in.Ops = append(in.Ops, c0...)
+	if in.Conns > 1 {
+		ms := genMeasures(rng, "wire", 1, 6)
+		for i := range ms {
+			ms[i].Conn = 1 + rng.Intn(in.Conns-1)
+			ms[i].Host = rng.Intn(7) - 1
+		}
+		sort.SliceStable(ms, func(a, b int) bool { return ms[a].Conn < ms[b].Conn })
+		in.Ops = append(in.Ops, ms...)
+	}
+	in.Ops = append(in.Ops, opIn{Op: "header", Obj: 0}, opIn{Op: "values", Obj: 0})
+	for b := 0; b < nb; b++ {
+		if rng.Intn(2) == 0 {
+			in.Ops = append(in.Ops, opIn{Op: "header", Obj: 1 + b}, opIn{Op: "values", Obj: 1 + b})
+		} else {
+			in.Ops = append(in.Ops, opIn{Op: "get", Idx: bidx[b]})
+		}
+	}
+	return in
+}
+
 // every sequence of at most maxLen read-out operations before the final write
 func exhaustiveReadouts(vals []float64, maxLen int) []interface{} {
 	kinds := []string{"collect", "string", "header", "values"}
@@ -981,6 +1152,12 @@ func generate(rng *rand.Rand, tier string) []interface{} {
 	for i := 0; i < 16*scale; i++ {
 		ins = append(ins, genTCPGarbage(rng))
 	}
+	for i := 0; i < 50*scale; i++ {
+		ins = append(ins, genAvgReuse(rng))
+	}
+	for i := 0; i < 24*scale; i++ {
+		ins = append(ins, genTCPTime(rng))
+	}
 	return ins
 }
 
@@ -1023,7 +1200,35 @@ func corpus() []interface{} {
 			{Op: "wire", Name: "round", V: 3, Host: 2, Conn: 1},
 			{Op: "wirebad", Conn: 1, Raw: "{\"Name\":\"round\",\"Val"},
 			{Op: "header", Obj: 0}, {Op: "values", Obj: 0}, {Op: "get", Idx: 0}}},
+		// an average must not share memory with its first source: a second
+		// average starting with the same set, then a late measure, then the
+		// first average is written
+		input{Kind: "avg-reuse", Mode: "api", Statics: st, Ops: avgReuseWitness()},
+		// host-bound time measures and buckets
+		input{Kind: "tcp-time", Mode: "tcp", Statics: st, Conns: 1, CountOnly: true, Ops: []opIn{
+			{Op: "bucket", Idx: 0, Rules: []string{"0:1"}}, {Op: "bucket", Idx: 1, Rules: []string{"1:2"}},
+			{Op: "time", Name: "round", Host: 0, Rec: 3}, {Op: "time", Name: "round", Host: 1, Rec: 1},
+			{Op: "time", Name: "round", Host: -1, Rec: 1},
+			{Op: "header", Obj: 0}, {Op: "values", Obj: 0}, {Op: "get", Idx: 0}, {Op: "get", Idx: 1}}},
 	}
+}
+
+func avgReuseWitness() []opIn {
+	ops := []opIn{{Op: "new"}, {Op: "new"}, {Op: "new"}}
+	for _, v := range []float64{1, 2, 3, 4, 5} {
+		ops = append(ops, opIn{Op: "direct", Obj: 1, Name: "round", V: v})
+	}
+	for _, v := range []float64{10, 20, 30} {
+		ops = append(ops, opIn{Op: "direct", Obj: 2, Name: "round", V: v})
+	}
+	for _, v := range []float64{100, 200, 300} {
+		ops = append(ops, opIn{Op: "direct", Obj: 3, Name: "round", V: v})
+	}
+	return append(ops,
+		opIn{Op: "average", Srcs: []int{1, 2}}, opIn{Op: "average", Srcs: []int{1, 3}},
+		opIn{Op: "values", Obj: 4}, opIn{Op: "values", Obj: 5},
+		opIn{Op: "average", Srcs: []int{1, 2}}, opIn{Op: "direct", Obj: 1, Name: "round", V: 1000},
+		opIn{Op: "values", Obj: 6}, opIn{Op: "values", Obj: 1})
 }
 
 func main() {
